@@ -74,6 +74,7 @@ def plan(tier, seed):
         require=['apply_results', 'ite_results', 'function_op_results',
                  'python_manager_cross_checks', 'history_steps',
                  'ledger_checks', 'handles_released', 'shutdown_checks',
+                 'handles_released_in_cycles',
                  'order_rotations', 'apply_results_cudd',
                  'apply_results_sylvan', 'apply_results_buddy'],
         assumptions=[
@@ -777,6 +778,14 @@ class Hist:
                     while self.be.nrefs(e[0]) > 1:
                         bdd.decref(e[0])
                     self.ctx.counters['handles_released'] += 1
+                    if rng.random() < 0.3:
+                        # the handle dies inside a reference cycle that
+                        # is younger than it: the cyclic collector
+                        # clears and finalises it (`check` collects)
+                        holder = dict(f=e[0])
+                        holder['self'] = holder
+                        holder = None
+                        self.ctx.counters['handles_released_in_cycles'] += 1
                     e = None
             site = 'drop'
         self.site = site
